@@ -82,8 +82,8 @@ def applyDft (bw : Float) (x : List Float) : List Float :=
 def kernel (bw : Float) (n : Nat) : Array Float :=
   let bk := rootTable n 1.0
   let M : Array Cx := Array.ofFn (n := n) fun k => (⟨transfer bw n k.val, 0⟩ : Cx)
-  let h : Fin n → Cx := dftWith (fun t => bk.getD t 0) (ofArr M n)
-  Array.ofFn fun i => (h i).re / n.toFloat
+  let h : Fin n → Cx := kernelOf (fun t => bk.getD t 0) (⟨1.0 / n.toFloat, 0⟩ : Cx) (ofArr M n)
+  Array.ofFn fun i => (h i).re
 
 def applyConv (bw : Float) (x : List Float) : List Float :=
   let n := x.length
